@@ -99,11 +99,13 @@ def wipes(ctx, rep, cfgs=None):
                 v, off = strip_casts(f, i.ops[0])
                 size = i.ops[1]['v'] if i.ops[1]['k'] == 'c' else None
                 ok = False
-                if v['k'] == 'i' and f.insts[v['id']].op == 'alloca':
-                    ok = off == 0 and size == f.insts[v['id']].d['alloc_size']
-                elif off == 0 and size == P.structs[DATA_STRUCT]['size']:
+                if off == 0 and size is not None:
                     objs = pts.of(f, i.ops[0])
-                    ok = bool(objs) and all(o[0] in ('heap', 'ext') for o in objs)
+                    def osize(o):
+                        if o[0] == 'alloca': return P.defined[o[1]].insts[o[2]].d['alloc_size']
+                        if o[0] in ('heap', 'ext'): return P.structs[DATA_STRUCT]['size']
+                        return None
+                    ok = bool(objs) and all(osize(o) == size for o in objs)
                 rep.check(ok, 'memzero at %s wipes a whole object' % i.loc, i.loc, f.name,
                           detail={'size': size, 'offset': off}, sample={'site': i.loc, 'size': size})
         rep.instances(n, 14, 'dep:memzero call sites')
